@@ -5,7 +5,7 @@ package netpoll
 
 // C18 correspondence harness for the poller pool (poll_manager.go, poll_loadbalance.go).
 // Every scenario runs on a FRESH `manager` built in-package with newManager; the global
-// `pollmanager` is never picked from.  Three kinds of scenario, all derived from one seed:
+// `pollmanager` is never picked from (an `iphase` points it at the scenario's manager and restores it).  Three kinds of scenario, all derived from one seed:
 //
 //   seq    – sequential calls (newManager / SetNumLoops / SetLoadBalance / Pick / Reset / Close, the
 //            round-robin counter preset in-package), one op line and one reply line (event + canonical
@@ -21,7 +21,9 @@ package netpoll
 //            openPoll failures are injected with RLIMIT_NOFILE=0 for the duration of one step.
 //   stress – phases of K goroutines calling Pick truly concurrently (no hooks needed); the outcome
 //            (multiset of returned pollers, final slice, closed set, census) is compared with the
-//            model's and judged by the Lean spec oracle.
+//            model's and judged by the Lean spec oracle.  One phase of every stress scenario (`iphase`) mixes callers of
+//            the package-level netpoll.Initialize() with the first Picks after a SetNumLoops; for its duration the global
+//            `pollmanager` IS the scenario's manager (Initialize has no other way in).
 //
 // After every phase each known poller is probed: Trigger() succeeds and a pipe registered with
 // Control(PollReadable) gets its OnRead callback from the poller's loop.
@@ -505,12 +507,31 @@ func (w *vmgrWorld) exec(toks []string, rng *rand.Rand) (opOut string, rep strin
 			ev = "retnil"
 		}
 		return fmt.Sprintf("pick r=%d", r), ev + " ## " + w.dump()
-	case "cphase": // K truly concurrent picks
+	case "cphase", "iphase":
+		// cphase K SEED     : K truly concurrent picks
+		// iphase K NI SEED  : K concurrent callers of which NI go through the package-level netpoll.Initialize() ("safe to
+		//   call it multi times"; it works on the global `pollmanager`, which is swapped for this scenario's manager for the
+		//   duration of the phase) and K-NI call Pick; everybody is released from the spinning barrier
 		k := atoi(toks[1])
-		seed := int64(atoi(toks[2]))
+		ni := 0
+		opName := fmt.Sprintf("cphase %d", k)
+		seedTok := toks[2]
+		if toks[0] == "iphase" {
+			ni = atoi(toks[2])
+			if ni > (k+1)/2 {
+				ni = (k + 1) / 2
+			}
+			if ni < 0 {
+				ni = 0
+			}
+			opName = fmt.Sprintf("iphase %d %d", k, ni)
+			seedTok = toks[3]
+		}
+		seed := int64(atoi(seedTok))
+		isInit := func(i int) bool { return i%2 == 0 && i/2 < ni }
 		if atomic.LoadInt32(&w.m.status) == managerInitializing {
 			w.dead = true
-			return fmt.Sprintf("cphase %d %d", k, seed), "hang"
+			return fmt.Sprintf("%s %d", opName, seed), "hang"
 		}
 		res := make([]Poll, k)
 		msgs := make([]string, k)
@@ -525,7 +546,7 @@ func (w *vmgrWorld) exec(toks []string, rng *rand.Rand) (opOut string, rep strin
 		// and call Pick directly, so that several of them are between two instructions of Pick at the same time (a
 		// channel barrier wakes its waiters one after the other, each with a goroutine switch in between)
 		nspin := 0
-		if seed%2 == 1 {
+		if seed%2 == 1 || ni > 0 {
 			nspin = runtime.GOMAXPROCS(0) / 2
 			if nspin < 2 {
 				nspin = 2
@@ -536,9 +557,15 @@ func (w *vmgrWorld) exec(toks []string, rng *rand.Rand) (opOut string, rep strin
 		}
 		var flag, ready int32
 		mgr := w.m
+		if ni > 0 {
+			global := pollmanager
+			pollmanager = mgr
+			defer func() { pollmanager = global }()
+		}
 		for i := 0; i < k; i++ {
 			wg.Add(1)
-			if i < nspin {
+			if i < nspin || isInit(i) {
+				spin := i < nspin
 				go func(i int) {
 					defer wg.Done()
 					defer func() {
@@ -546,10 +573,18 @@ func (w *vmgrWorld) exec(toks []string, rng *rand.Rand) (opOut string, rep strin
 							res[i], msgs[i] = nil, fmt.Sprint(e)
 						}
 					}()
-					atomic.AddInt32(&ready, 1)
-					for atomic.LoadInt32(&flag) == 0 {
+					if spin {
+						atomic.AddInt32(&ready, 1)
+						for atomic.LoadInt32(&flag) == 0 {
+						}
+					} else {
+						<-gate
 					}
-					res[i] = mgr.Pick()
+					if isInit(i) {
+						Initialize()
+					} else {
+						res[i] = mgr.Pick()
+					}
 				}(i)
 				continue
 			}
@@ -576,14 +611,26 @@ func (w *vmgrWorld) exec(toks []string, rng *rand.Rand) (opOut string, rep strin
 		case <-time.After(4 * vmgrPatience):
 			w.dead = true
 			atomic.StoreInt32(&mgr.status, managerInitialized) // lets pickers that spin on the status word go
-			return fmt.Sprintf("cphase %d %d", k, seed), "hang"
+			return fmt.Sprintf("%s %d", opName, seed), "hang"
 		}
 		for _, m := range msgs {
 			if m == "hang" {
-				return fmt.Sprintf("cphase %d %d", k, seed), "hang"
+				return fmt.Sprintf("%s %d", opName, seed), "hang"
 			}
 		}
-		return fmt.Sprintf("cphase %d %d%s", k, seed, w.rndSuffix(res)), w.endLine(res, msgs)
+		if ni > 0 {
+			// Initialize() returns nothing: only the callers of Pick have a result (a panic inside Initialize counts)
+			var pres []Poll
+			var pmsgs []string
+			for i := 0; i < k; i++ {
+				if !isInit(i) || msgs[i] != "" {
+					pres = append(pres, res[i])
+					pmsgs = append(pmsgs, msgs[i])
+				}
+			}
+			res, msgs = pres, pmsgs
+		}
+		return fmt.Sprintf("%s %d%s", opName, seed, w.rndSuffix(res)), w.endLine(res, msgs)
 	case "reset":
 		var err error
 		pan := false
@@ -942,6 +989,7 @@ func vmgrGenStress(w *vmgrWorld, out *vmgrOut, rng *rand.Rand) {
 		do("setlb 1")
 	}
 	phases := 2 + rng.Intn(4)
+	iph := rng.Intn(phases) // one phase of every scenario has callers of Initialize()
 	for p := 0; p < phases && !w.dead; p++ {
 		if p > 0 {
 			if rng.Intn(4) > 0 {
@@ -953,6 +1001,14 @@ func vmgrGenStress(w *vmgrWorld, out *vmgrOut, rng *rand.Rand) {
 			if rng.Intn(4) == 0 {
 				do("setacc %d", rng.Int63n(1<<40))
 			}
+		}
+		if p == iph {
+			// netpoll.Initialize() racing the first (lazily initialising) Picks after a reconfiguration that leaves a
+			// good number of pollers to open (the longer Run takes, the more callers arrive while it is under way)
+			do("setn %d", 4+rng.Intn(13))
+			k := 2 + rng.Intn(15)
+			do("iphase %d %d %d", k, 1+rng.Intn((k+1)/2), rng.Intn(1<<30))
+			continue
 		}
 		do("cphase %d %d", 2+rng.Intn(63), rng.Intn(1<<30))
 	}
@@ -1108,7 +1164,7 @@ func vmgrReplay(path string, out *vmgrOut) int {
 			out.emit(line, line)
 		default:
 			op, rep := w.exec(toks, rng)
-			if toks[0] == "pick" || toks[0] == "cphase" {
+			if toks[0] == "pick" || toks[0] == "cphase" || toks[0] == "iphase" {
 				// keep the recorded line (the random indices are re-observed)
 				out.emit(op, rep)
 			} else {
